@@ -28,7 +28,30 @@ func hostileStream(c *sim.Ctx, allowHuge bool) (stream []byte, frames [][]byte, 
 	for i := 0; i < n; i++ {
 		f, fm := ref.Encode(gen.Packet(t, cfg))
 		other, _ := ref.Encode(gen.Packet(t, gen.Cfg{Spec: true, NoHuge: true}))
+		pre := ""
+		if t.Bool(1, 4) {
+			// first fault (keeps every length): the CONTENT of one or two strings is
+			// replaced by bytes no UTF-8 text consists of - runs of continuation bytes,
+			// 0xFF, an over-long NUL, a surrogate, NUL - and only then the aimed plan
+			// strikes (code that formats or trims a string for an error message sees both)
+			f = append([]byte{}, f...)
+			var strs []ref.Field
+			for _, x := range fm {
+				if x.Kind == "str" && x.End-x.Start > 2 {
+					strs = append(strs, x)
+				}
+			}
+			for k := 0; k < 2 && len(strs) > 0; k++ {
+				x := strs[t.Int(len(strs))]
+				junk := [][]byte{{0x80}, {0xBF}, {0xFF}, {0xC0, 0x80}, {0xED, 0xA0, 0x80}, {0x00}, {0xF8, 0x88}}[t.Int(7)]
+				for i := x.Start + 2; i < x.End; i++ {
+					f[i] = junk[(i-x.Start-2)%len(junk)]
+				}
+			}
+			pre = "hostile-string-content+"
+		}
 		d, plan := gen.Damage(t, f, fm, other, allowHuge)
+		plan = pre + plan
 		c.Count("fault.corrupt:" + plan)
 		stream = append(stream, d...)
 		frames = append(frames, d)
